@@ -24,6 +24,7 @@ type specEnv struct {
 	pkg  *types.Package
 	self *sval
 	gst  *State // state whose ghost variables are visible (stays at the outer state inside old()/locked())
+	lockedSt *State // at a call site: the callee's state right after its lock acquisition (simulated)
 }
 
 func (env *specEnv) with(name string, v sval) *specEnv {
@@ -433,15 +434,28 @@ func (env *specEnv) evalCall(e *SExpr) sval {
 	case "locked":
 		// state right after the (last) lock acquisition of this function: the
 		// linearisation pre-state under the monitor model
-		if fv.lockSnap == nil {
+		ls := env.lockedSt
+		if ls == nil {
+			ls = fv.lockSnap
+		}
+		if ls == nil {
 			env.fail(e, "locked() used but no lock with declared ownership was acquired")
 		}
 		n := *env
 		if n.gst == nil {
 			n.gst = env.cur
 		}
-		n.cur = fv.lockSnap
+		n.cur = ls
 		return n.eval(args[0])
+	case "lockedN":
+		// lockedN(n, e): e in the state right after the n-th lock acquisition (program order, 1-based)
+		nv, ok := smt.IntVal(env.eval(args[0]).t)
+		if !ok || nv.Sign() <= 0 || int(nv.Int64()) > len(fv.lockSnaps) {
+			env.fail(e, "lockedN: no such lock acquisition (have %d)", len(fv.lockSnaps))
+		}
+		n := *env
+		n.cur = fv.lockSnaps[nv.Int64()-1]
+		return n.eval(args[1])
 	case "len", "cap":
 		v := env.eval(args[0])
 		if v.typ != nil {
@@ -533,6 +547,22 @@ func (env *specEnv) evalCall(e *SExpr) sval {
 			t = slArr(v.t)
 		}
 		return boolVal(smt.Gt(t, env.old.frontier))
+	case "live":
+		// live(p): p refers to an object that exists in the current state (nil counts as live);
+		// objects allocated later are distinct from every live reference
+		v := env.eval(args[0])
+		t := v.t
+		if v.t.Sort == SliceSort {
+			t = slArr(v.t)
+		}
+		return boolVal(smt.And(smt.Ge(t, smt.IntLit(0)), smt.Le(t, env.cur.frontier)))
+	case "macstr":
+		// macstr(h): the string net.HardwareAddr(h).String() yields in the current state
+		v := env.eval(args[0])
+		if v.t.Sort != SliceSort {
+			env.fail(e, "macstr needs a byte slice")
+		}
+		return sval{fv.hwaddrStr(env.cur, v.t), types.Typ[types.String]}
 	case "now":
 		return mathVal(env.cur.now)
 	case "pow2":
@@ -794,12 +824,26 @@ type modTarget struct {
 	arr    smt.Term
 	// ghost field target
 	ghostKey string
+	inner bool // inner(x.f): the maps that are VALUES of the map x.f (nested map contents), not x.f itself
+}
+
+// innerMember is the condition "r is a value of map m (of type mt) in state st".
+func (fv *funcVerifier) innerMember(st *State, m smt.Term, mt *types.Map, r smt.Term, kname string) smt.Term {
+	dom, val, _ := fv.mapKeys(mt)
+	k := smt.Term{S: kname, Sort: fv.so.sortOf(mt.Key())}
+	return smt.And(smt.Ne(m, smt.IntLit(0)), smt.Exists([]smt.Term{k}, smt.And(smt.Select(smt.Select(fv.heapGet(st, dom), m), k),
+		smt.Eq(smt.Select(smt.Select(fv.heapGet(st, val), m), k), r))))
 }
 
 func (env *specEnv) modTargets(list []*SExpr) []modTarget {
 	fv := env.fv
 	var out []modTarget
 	for _, e := range list {
+		inner := false
+		if e.Op == "call" && len(e.Args) == 2 && e.Args[0].Op == "ident" && e.Args[0].Name == "inner" {
+			inner = true
+			e = e.Args[1]
+		}
 		if e.Op != "field" {
 			v := env.eval(e)
 			if v.typ != nil {
@@ -808,7 +852,7 @@ func (env *specEnv) modTargets(list []*SExpr) []modTarget {
 					continue
 				}
 			}
-			env.fail(e, "modifies target must be x.f or a slice (its elements)")
+			env.fail(e, "modifies target must be x.f, inner(x.f) or a slice (its elements)")
 		}
 		base := env.eval(e.Args[0])
 		if gk, _, ok := fv.ghostFieldKey(base.typ, e.Name); ok {
@@ -824,7 +868,16 @@ func (env *specEnv) modTargets(list []*SExpr) []modTarget {
 		if f == nil {
 			env.fail(e, "no field %s", e.Name)
 		}
-		out = append(out, modTarget{ref: base.t, st: st, field: f})
+		if inner {
+			mt, ok := f.typ.Underlying().(*types.Map)
+			if ok {
+				_, ok = mt.Elem().Underlying().(*types.Map)
+			}
+			if !ok {
+				env.fail(e, "inner(x.f) needs a map-of-maps field")
+			}
+		}
+		out = append(out, modTarget{ref: base.t, st: st, field: f, inner: inner})
 	}
 	return out
 }
@@ -841,6 +894,24 @@ func (fv *funcVerifier) applyModifies(st *State, env *specEnv, sp *FuncSpec) {
 	}
 	tgts := env.modTargets(sp.Modifies)
 	fv.mut++
+	// inner(x.f): the contents of every map that is a value of x.f in the pre-call state may change
+	for i, t := range tgts {
+		if !t.inner {
+			continue
+		}
+		pre := env.cur
+		mt := t.field.typ.Underlying().(*types.Map)
+		m := fv.fieldLval(pre, t.ref, t.st, t.field).load()
+		idom, ival, iln := fv.mapKeys(mt.Elem().Underlying().(*types.Map))
+		for _, k := range []string{idom, ival, iln} {
+			h := fv.heapGet(st, k)
+			nh := fv.c.Fresh("Hin_"+k, h.Sort)
+			r := smt.Term{S: "fr_r", Sort: smt.Int}
+			fv.assume(st, smt.Forall([]smt.Term{r}, smt.Implies(smt.Not(fv.innerMember(pre, m, mt, r, fmt.Sprintf("fr_k%d", i))),
+				smt.Eq(smt.Select(nh, r), smt.Select(h, r)))))
+			fv.heapSet(st, k, nh)
+		}
+	}
 	for _, t := range tgts {
 		if t.ghostKey != "" {
 			h := fv.heapGet(st, t.ghostKey)
@@ -850,6 +921,9 @@ func (fv *funcVerifier) applyModifies(st *State, env *specEnv, sp *FuncSpec) {
 		if t.field == nil {
 			h := fv.heapGet(st, t.memKey)
 			fv.heapSet(st, t.memKey, smt.Store(h, t.arr, fv.c.Fresh("hv", smt.ElemSort(h.Sort))))
+			continue
+		}
+		if t.inner {
 			continue
 		}
 		old := fv.fieldLval(st, t.ref, t.st, t.field).load()
@@ -878,6 +952,12 @@ func (fv *funcVerifier) havocReferent(st *State, v smt.Term, t types.Type) {
 		}
 		l := smt.Select(fv.heapGet(st, ln), v)
 		fv.assume(st, smt.Ge(l, smt.IntLit(0)))
+		if isRefLike(u.Elem()) {
+			// the (unknown) values of the map are type-valid: references to objects that already exist
+			qk := smt.Term{S: "hv_k", Sort: fv.so.sortOf(u.Key())}
+			ev := smt.Select(smt.Select(fv.heapGet(st, val), v), qk)
+			fv.assume(st, smt.Forall([]smt.Term{qk}, smt.Implies(smt.Select(smt.Select(fv.heapGet(st, dom), v), qk), fv.so.valid(ev, u.Elem(), st.frontier))))
+		}
 	case *types.Slice:
 		key := fv.memKey(u.Elem())
 		h := fv.heapGet(st, key)
@@ -918,6 +998,13 @@ func (fv *funcVerifier) checkFrame(exit *State, env *specEnv) {
 		ref smt.Term
 	}
 	var refs []refKey
+	type innerKey struct {
+		key string
+		m   smt.Term
+		mt  *types.Map
+	}
+	var inners []innerKey
+	snaps := append([]*State{fv.entry}, fv.lockSnaps...)
 	for _, t := range tgts {
 		if t.ghostKey != "" {
 			refs = append(refs, refKey{t.ghostKey, t.ref})
@@ -927,16 +1014,30 @@ func (fv *funcVerifier) checkFrame(exit *State, env *specEnv) {
 			refs = append(refs, refKey{t.memKey, t.arr})
 			continue
 		}
-		oldv := fv.fieldLval(fv.entry, t.ref, t.st, t.field).load()
-		switch u := t.field.typ.Underlying().(type) {
-		case *types.Map:
-			dom, val, ln := fv.mapKeys(u)
-			refs = append(refs, refKey{dom, oldv}, refKey{val, oldv}, refKey{ln, oldv})
-		case *types.Slice:
-			refs = append(refs, refKey{fv.memKey(u.Elem()), slArr(oldv)})
-		case *types.Pointer:
-			if full, ok := opaqueNamed(u.Elem()); ok && full == "math/big.Int" {
-				refs = append(refs, refKey{fv.bigKey("val"), oldv}, refKey{fv.bigKey("bits"), oldv})
+		for si, snap := range snaps {
+			// referents as of entry and as of every lock acquisition (an owned field is re-read after Lock)
+			oldv := fv.fieldLval(snap, t.ref, t.st, t.field).load()
+			if si > 0 && t.inner {
+				continue
+			}
+			if t.inner {
+				mt := t.field.typ.Underlying().(*types.Map)
+				idom, ival, iln := fv.mapKeys(mt.Elem().Underlying().(*types.Map))
+				for _, k := range []string{idom, ival, iln} {
+					inners = append(inners, innerKey{k, oldv, mt})
+				}
+				continue
+			}
+			switch u := t.field.typ.Underlying().(type) {
+			case *types.Map:
+				dom, val, ln := fv.mapKeys(u)
+				refs = append(refs, refKey{dom, oldv}, refKey{val, oldv}, refKey{ln, oldv})
+			case *types.Slice:
+				refs = append(refs, refKey{fv.memKey(u.Elem()), slArr(oldv)})
+			case *types.Pointer:
+				if full, ok := opaqueNamed(u.Elem()); ok && full == "math/big.Int" {
+					refs = append(refs, refKey{fv.bigKey("val"), oldv}, refKey{fv.bigKey("bits"), oldv})
+				}
 			}
 		}
 	}
@@ -979,8 +1080,13 @@ func (fv *funcVerifier) checkFrame(exit *State, env *specEnv) {
 		}
 		allowed := smt.False
 		for _, t := range tgts {
-			if t.field != nil && fv.so.fieldKey(t.st, t.field.name) == k {
+			if t.field != nil && !t.inner && fv.so.fieldKey(t.st, t.field.name) == k {
 				allowed = smt.Or(allowed, smt.Eq(r, t.ref))
+			}
+		}
+		for i, ik := range inners {
+			if ik.key == k {
+				allowed = smt.Or(allowed, fv.innerMember(fv.entry, ik.m, ik.mt, r, fmt.Sprintf("fr_k%d", i)))
 			}
 		}
 		for _, rk := range refs {
@@ -1093,9 +1199,16 @@ func (fv *funcVerifier) callWithSpecSig(st *State, call *ast.CallExpr, sig *type
 	for _, r := range sp.Requires {
 		fv.assert(st, "requires", key+":"+r.String(), call.Pos(), env.evalBool(r))
 	}
+	// locked(e) in the callee's postconditions refers to the state right after the callee acquired
+	// its receiver's mutex: the pre-call state with the owned fields forgotten and the lock invariants assumed
+	var lockedSt *State
+	if recvType != nil && specMentionsLocked(sp) {
+		lockedSt = fv.simulateLock(st, recv, recvType)
+	}
 	fv.applyModifies(st, env, sp)
 	post := *env
 	post.cur = st
+	post.lockedSt = lockedSt
 	post.vars = map[string]sval{}
 	for k, v := range env.vars {
 		post.vars[k] = v
@@ -1282,14 +1395,130 @@ func (fv *funcVerifier) lockSpecOp(st *State, mu ast.Expr, acquire bool, call *a
 		}
 		env := &specEnv{fv: fv, cur: st, old: fv.entry, vars: map[string]sval{}, pkg: n.Obj().Pkg()}
 		for _, inv := range ts.Invs {
-			fv.assume(st, env.evalInv(self, inv.E))
+			if invGuardedBy(fv.prog.Specs, ts, inv.E, sel.Sel.Name) {
+				fv.assume(st, env.evalInv(self, inv.E))
+			}
 		}
 		fv.lockSnap = st.clone()
+		fv.lockSnaps = append(fv.lockSnaps, fv.lockSnap)
 		return true
 	}
 	env := &specEnv{fv: fv, cur: st, old: fv.entry, vars: map[string]sval{}, pkg: n.Obj().Pkg()}
 	for _, inv := range ts.Invs {
-		fv.assert(st, "lockinv", n.Obj().Name()+"."+inv.Name+"@unlock", call.Pos(), env.evalInv(self, inv.E))
+		if invGuardedBy(fv.prog.Specs, ts, inv.E, sel.Sel.Name) {
+			fv.assert(st, "lockinv", n.Obj().Name()+"."+inv.Name+"@unlock", call.Pos(), env.evalInv(self, inv.E))
+		}
 	}
 	return true
+}
+
+// invGuardedBy reports whether a type invariant belongs to mutex mu: it mentions a field
+// owned by mu, or it mentions no owned field at all (immutable configuration; assumed and
+// asserted with every mutex). With a single mutex every invariant belongs to it. Calls of
+// pure spec functions are expanded; anything else that hides field accesses counts for every mutex.
+func invGuardedBy(ss *SpecSet, ts *TypeSpec, e *SExpr, mu string) bool {
+	if len(ts.Owns) <= 1 {
+		return true
+	}
+	ownerOf := map[string]string{}
+	for m, fs := range ts.Owns {
+		for _, f := range fs {
+			ownerOf[f] = m
+		}
+	}
+	mine, other, opaque := false, false, false
+	seen := map[string]bool{}
+	var walk func(x *SExpr)
+	walk = func(x *SExpr) {
+		if x == nil {
+			return
+		}
+		if x.Op == "field" {
+			if o, ok := ownerOf[x.Name]; ok {
+				if o == mu {
+					mine = true
+				} else {
+					other = true
+				}
+			} else {
+				for _, inv := range ts.Invs {
+					if inv.Name == x.Name && !seen["inv:"+x.Name] {
+						seen["inv:"+x.Name] = true
+						walk(inv.E)
+					}
+				}
+			}
+		}
+		if x.Op == "call" && len(x.Args) > 0 && x.Args[0].Op == "ident" {
+			if pf := ss.Pures[x.Args[0].Name]; pf != nil {
+				if !seen[x.Args[0].Name] {
+					seen[x.Args[0].Name] = true
+					walk(pf.Body)
+				}
+			}
+		}
+		for _, a := range x.Args {
+			walk(a)
+		}
+	}
+	walk(e)
+	_ = opaque
+	return mine || !other
+}
+
+func specMentionsLocked(sp *FuncSpec) bool {
+	for _, e := range sp.Ensures {
+		if strings.Contains(e.String(), "locked(") {
+			return true
+		}
+	}
+	return false
+}
+
+// simulateLock returns a copy of st in which every field of owner that is
+// owned by a mutex of its type has an unknown value satisfying the type's lock
+// invariants (what a callee sees right after taking the lock). The facts are
+// assumed under st's liveness.
+func (fv *funcVerifier) simulateLock(st *State, owner smt.Term, ot types.Type) *State {
+	n, ok := derefNamed(ot)
+	if !ok || n.Obj().Pkg() == nil {
+		return nil
+	}
+	ts := fv.prog.Specs.Types[ShortPkg(n.Obj().Pkg().Path())+"."+n.Obj().Name()]
+	if ts == nil || len(ts.Owns) == 0 {
+		return nil
+	}
+	if _, isPtr := ot.Underlying().(*types.Pointer); !isPtr {
+		return nil
+	}
+	snap := st.clone()
+	si := fv.so.structOf(n)
+	var mus []string
+	for mu := range ts.Owns {
+		mus = append(mus, mu)
+	}
+	sortStrings(mus)
+	for _, mu := range mus {
+		for _, fname := range ts.Owns[mu] {
+			if gk, gso, ok := fv.ghostFieldKey(ot, fname); ok {
+				h := fv.heapGet(snap, gk)
+				fv.heapSet(snap, gk, smt.Store(h, owner, fv.c.Fresh("slg_"+fname, gso)))
+				continue
+			}
+			_, f := si.field(fname)
+			if f == nil {
+				continue
+			}
+			lv := fv.fieldLval(snap, owner, n, f)
+			old := lv.load()
+			fv.havocReferent(snap, old, f.typ)
+			lv.store(fv.fresh(snap, "sl_"+fname, f.typ))
+		}
+	}
+	env := &specEnv{fv: fv, cur: snap, old: snap, vars: map[string]sval{}, pkg: n.Obj().Pkg()}
+	self := sval{owner, ot}
+	for _, inv := range ts.Invs {
+		fv.assume(snap, env.evalInv(self, inv.E))
+	}
+	return snap
 }
